@@ -13,6 +13,7 @@ import (
 	"path/filepath"
 	"regexp"
 	"strings"
+	"sync"
 	"time"
 	"unicode/utf8"
 
@@ -21,6 +22,7 @@ import (
 	"github.com/magisterquis/curlrevshell/verifharness/ev"
 	"github.com/magisterquis/curlrevshell/verifharness/ptyx"
 	"github.com/magisterquis/curlrevshell/verifharness/srv"
+	"github.com/magisterquis/curlrevshell/verifharness/tlcrun"
 )
 
 // bodyReader decodes the (chunked) body of a streaming HTTP response on c.
@@ -504,4 +506,121 @@ func httpGenerationsLeg(r *ev.Run) {
 		}
 		r.Add("http_generations", 1)
 	}
+}
+
+// oneShellNoticeLeg: with -one-shell the program is on its way out as soon as its shell has ended
+// (Curlrevshell.tla Finish / TermStop); the closing notices of that last shell must still be shown.
+// Many short sessions of the real binary on a pty; the specification's design as found is kept and
+// refuted by TLC (Curlrevshell_finish_asfound.cfg).
+func oneShellNoticeLeg(r *ev.Run) {
+	res, err := tlcrun.Run(tlcrun.Opts{Module: "Curlrevshell", Config: "Curlrevshell_finish", Workers: 8, Timeout: 10 * time.Minute})
+	if err != nil || res.TimedOut || res.Violated != "" || !res.OK {
+		r.Inconclusive("TLC Curlrevshell_finish: err=%v violated=%q\n%s", err, resViolated(res), tail(res))
+		return
+	}
+	r.Append("tlc_invariants_checked", "Curlrevshell_finish: NoticeShownAtCompletion")
+	if res2, _ := tlcrun.Run(tlcrun.Opts{Module: "Curlrevshell", Config: "Curlrevshell_finish_asfound", Workers: 8, Timeout: 10 * time.Minute}); res2 != nil && res2.Violated == "NoticeShownAtCompletion" {
+		r.Set("tlc_refutes_output_goroutine_returning_at_once", "Curlrevshell_finish_asfound.cfg: NoticeShownAtCompletion violated")
+	} else {
+		r.Inconclusive("Curlrevshell_finish_asfound.cfg: TLC did not refute NoticeShownAtCompletion for the design as found")
+	}
+	scratch, err := os.MkdirTemp(os.Getenv("VERIF_SCRATCH"), "oneshell-notice-")
+	if err != nil {
+		r.Inconclusive("%v", err)
+		return
+	}
+	defer os.RemoveAll(scratch)
+	bin, err := buildBinary(scratch)
+	if err != nil {
+		r.Inconclusive("%v", err)
+		return
+	}
+	per := 40
+	if r.Tier == "thorough" {
+		per = 250
+	}
+	var mu sync.Mutex
+	lost, done, infra := 0, 0, 0
+	var sample string
+	var wg sync.WaitGroup
+	for w := 0; w < 16; w++ {
+		wg.Add(1)
+		go func(w int) {
+			defer wg.Done()
+			for i := 0; i < per; i++ {
+				ok, detail, err := oneShellSession(bin, scratch, w*1000+i, (w+i)%2 == 0)
+				mu.Lock()
+				switch {
+				case err != nil:
+					infra++
+				case !ok:
+					lost++
+					sample = detail
+				}
+				done++
+				mu.Unlock()
+			}
+		}(w)
+	}
+	wg.Wait()
+	r.Set("one_shell_sessions", done)
+	r.Add("evaluations", done)
+	if infra > done/10 {
+		r.Inconclusive("one-shell notice leg: %d of %d sessions could not be set up", infra, done)
+	}
+	switch {
+	case lost >= 2:
+		r.Violation("one-shell:gone-notice-lost", map[string]any{"kind": "real binary with -one-shell on a pty; the input stream's client closes", "sessions": done,
+			"sessions_without_the_gone_notice": lost, "terminal_tail_of_one": sample})
+	case lost == 1:
+		r.Inconclusive("one of %d -one-shell sessions did not show the 'Shell is gone' notice within 8 s: %s", done, sample)
+	}
+}
+
+// oneShellSession attaches a shell to a -one-shell run, ends it by closing one stream's client and
+// reports whether the 'Shell is gone' notice reached the terminal.
+func oneShellSession(bin, scratch string, n int, inFirst bool) (bool, string, error) {
+	dir, err := os.MkdirTemp(scratch, "s")
+	if err != nil {
+		return false, "", err
+	}
+	defer os.RemoveAll(dir)
+	p, err := ptyx.Start(bin, []string{"-one-shell", "-listen-address", "127.0.0.1:0", "-tls-certificate-cache", filepath.Join(dir, "c.txtar")}, ptyx.Opts{Dir: dir, Env: []string{"HOME=" + dir}})
+	if err != nil {
+		return false, "", err
+	}
+	defer p.Close()
+	m, ok := p.WaitFor(reListen, 0, 10*time.Second)
+	if !ok {
+		return false, "", fmt.Errorf("binary did not start")
+	}
+	addr := string(reListen.FindSubmatch(m)[1])
+	co, err := dialTLS(addr)
+	if err != nil {
+		return false, "", err
+	}
+	defer co.Close()
+	ci, err := dialTLS(addr)
+	if err != nil {
+		return false, "", err
+	}
+	defer ci.Close()
+	id := fmt.Sprintf("s%d", n)
+	fmt.Fprintf(co, "POST /o/%s HTTP/1.1\r\nHost: x\r\nTransfer-Encoding: chunked\r\n\r\n", id)
+	fmt.Fprintf(ci, "GET /i/%s HTTP/1.1\r\nHost: x\r\n\r\n", id)
+	if _, ok := p.WaitFor(regexp.MustCompile(`Shell is ready`), 0, 8*time.Second); !ok {
+		return false, "", fmt.Errorf("shell not attached")
+	}
+	off := len(p.Output())
+	if inFirst {
+		ci.Close()
+	} else {
+		co.Close()
+	}
+	if _, ok := p.WaitFor(regexp.MustCompile(`Shell is gone`), off, 8*time.Second); !ok {
+		return false, tailBytes(p.Output(), 400), nil
+	}
+	p.Type([]byte{4})
+	p.WaitExit(5 * time.Second)
+	return true, "", nil
 }
